@@ -17,8 +17,16 @@ impl StringBlock {
     pub fn parse<R: Read + Seek>(reader: &mut R, offset: u64, size: u32) -> Result<Self> {
         reader.seek(SeekFrom::Start(offset))?;
 
-        let mut data = vec![0u8; size as usize];
-        reader.read_exact(&mut data)?;
+        // The size comes from the file: read what is there instead of allocating it up front
+        let mut data = Vec::new();
+        reader.by_ref().take(size as u64).read_to_end(&mut data)?;
+        if data.len() != size as usize {
+            return Err(std::io::Error::new(
+                std::io::ErrorKind::UnexpectedEof,
+                "data extends beyond the end of the file",
+            )
+            .into());
+        }
 
         Ok(Self { data })
     }
